@@ -150,6 +150,7 @@ def r18_2(ctx):
                         'every Ok exit is dominated by publish:Ok or link-EEXIST (%d Ok exits)' % len(oks) if not bad else
                         'the write can report success without having published the file',
                         path=path_brief(q.witness(bad[0], blocked=A) or []) if bad else []))
+    performed = set()
     for fk in ctx.role('finalizers'):
         q = ctx.explore(fk)
         oks = q.terminals(lambda ev: ev['k'] == 'ret' and ev.get('variant') == 'Ok')
@@ -157,12 +158,18 @@ def r18_2(ctx):
             E = q.prim_edges(cls)
             if not E:
                 continue      # a helper that does not perform this step has nothing to report for it
+            performed.add(what)
             A = outcomes(q, E, 'Ok')
             r = q.reach_fwd([q.g.entry], blocked=A)
             bad = [t for t in oks if t in r]
             out.append(inst('R18.2', 'finalizer %s|%s' % (ctx.B[fk]['name'], what), not bad,
                             'every Ok exit of the finalizer is dominated by %s:Ok' % what if not bad else
                             'the finalizer can return Ok although %s failed or was skipped' % what))
+    # ... but every step is some finalizer's job: a close that is left to the destructor reports nothing
+    for what in ('chmod', 'close'):
+        if what not in performed:
+            out.append(inst('R18.2', 'finalizers|%s' % what, False,
+                            'no temp-file finalizer performs a checked %s any more: its failure (e.g. a deferred write error reported by close on NFS) would be dropped silently' % what))
     return out
 
 
